@@ -634,8 +634,10 @@ def spawn_workers(jobs: list, seeds: list, timeout: int = 800):
         env['PYTHONHASHSEED'] = str(seed)
         env['PYTHONDONTWRITEBYTECODE'] = '1'
         try:
+            # cwd = the scenarios' temporary root: forml's default log file (./<argv0>.log) must not land in /verif
             p = subprocess.run([sys.executable, os.path.abspath(__file__), '--worker'], input=json.dumps(jobs),
-                               capture_output=True, text=True, env=env, timeout=timeout)
+                               capture_output=True, text=True, env=env, timeout=timeout,
+                               cwd=os.path.dirname(jobs[0]['dir']) if jobs else None)
             if p.returncode != 0:
                 raise RuntimeError(p.stderr[-800:])
             out[seed] = json.loads(p.stdout)
